@@ -227,7 +227,7 @@ func runC10(c *core.Ctx) core.Meta {
 				}
 				st3.Instances++
 				pv := prov.Of(s.Val)
-				ok2 := regexp.MustCompile(`\.allocatePage\(\)$|\.allocateMultiplePages\(.*\)\[.*\]$`).MatchString(pv)
+				ok2 := core.ProvMatch(regexp.MustCompile(`\.allocatePage\(\)$|\.allocateMultiplePages\(.*\)\[.*\]$`), pv)
 				st3.Ob(ok2)
 				st3.Sample("%s: page.PAddr = %s", core.FuncName(fn), short(pv))
 				if !ok2 {
@@ -247,7 +247,7 @@ func runC10(c *core.Ctx) core.Meta {
 		}
 		st3.Instances++
 		pv := prov.Of(cc.Args[0])
-		ok := strings.HasSuffix(pv, ".PAddr") && strings.Contains(pv, "vAddrToPageMapping[") && !regexp.MustCompile(`[-+*]`).MatchString(strings.ReplaceAll(pv, "(1<<", ""))
+		ok := strings.HasSuffix(pv, ".PAddr") && strings.Contains(pv, "vAddrToPageMapping[") && !core.ProvMatch(regexp.MustCompile(`[-+*]`), strings.ReplaceAll(pv, "(1<<", ""))
 		st3.Ob(ok)
 		st3.Sample("%s: returns %s to the device", core.FuncName(fn), short(pv))
 		if !ok {
@@ -462,7 +462,7 @@ func runC10(c *core.Ctx) core.Meta {
 		}
 		st5.Instances++
 		pv := prov.Of(s.Val)
-		ok2 := pv == "(1<<recv.log2PageSize)" || regexp.MustCompile(`^\(.*\.nextVAddr\+\(\(1<<recv\.log2PageSize\)\*param:numPages\)\)$`).MatchString(pv)
+		ok2 := pv == "(1<<recv.log2PageSize)" || core.ProvMatch(regexp.MustCompile(`^\(.*\.nextVAddr\+\(\(1<<recv\.log2PageSize\)\*param:numPages\)\)$`), pv)
 		st5.Ob(ok2)
 		st5.Sample("%s: nextVAddr = %s", core.FuncName(fn), short(pv))
 		if !ok2 {
@@ -504,7 +504,7 @@ func runC10(c *core.Ctx) core.Meta {
 				}
 				st5.Instances++
 				pv := prov.Of(s.Val)
-				ok2 := regexp.MustCompile(`^\(.*\.nextVAddr\+\(iter\(.*\)\*\(1<<recv\.log2PageSize\)\)\)$`).MatchString(pv)
+				ok2 := core.ProvMatch(regexp.MustCompile(`^\(.*\.nextVAddr\+\(iter\(.*\)\*\(1<<recv\.log2PageSize\)\)\)$`), pv)
 				st5.Ob(ok2)
 				if !ok2 {
 					c.ReportAt("R10.5", fn, in.Pos(), "page:VAddr", "the i-th page of an allocation is mapped at "+short(pv)+", not nextVAddr + i*pageSize")
@@ -597,11 +597,11 @@ func runC10(c *core.Ctx) core.Meta {
 				okLoop := len(conds) > 0
 				okBound := false
 				for _, lc := range conds {
-					if recordedField != "" && regexp.MustCompile(`^\(iter\(\{\(@\+1\)\|0\}\)<(\{1\|)?[^{}|]*\.`+regexp.QuoteMeta(recordedField)+`\[param:ptr\]\}?\)$`).MatchString(lc) {
+					if recordedField != "" && core.ProvMatch(regexp.MustCompile(`^\(iter\(\{\(@\+1\)\|0\}\)<(\{1\|)?[^{}|]*\.`+regexp.QuoteMeta(recordedField)+`\[param:ptr\]\}?\)$`), lc) {
 						okBound = true
 					}
 				}
-				okArg := arg == "(param:ptr+(iter({(@+1)|0})*(1<<recv.log2PageSize)))" || arg == "(param:ptr+((1<<recv.log2PageSize)*iter({(@+1)|0})))"
+				okArg := core.ProvEq(arg, "(param:ptr+(iter({(@+1)|0})*(1<<recv.log2PageSize)))")
 				st6.Ob(okLoop && okBound && okArg)
 				st6.Sample("Free: removePage(%s) under %v", arg, conds)
 				switch {
